@@ -147,7 +147,8 @@ pub struct C12Family {
 
 const INDENT_KINDS: usize = 7;
 const CONTENTS: [&str; 5] = ["a", "a  ", "''", "'''", ""];
-const BASES: [&str; 6] = ["", "  ", "    ", "\t", "\u{3000}", " \t"];
+// (the last two are not blanks for Delphi: a literal closed behind them breaks the indentation rule)
+const BASES: [&str; 8] = ["", "  ", "    ", "\t", "\u{3000}", " \t", "\u{a0}\u{a0}", " \u{2003}"];
 const TERMS: usize = 5;
 const AFTERS: [&str; 3] = [";", ".Trim;", " + 'x';"];
 pub const C12_POSITIONS: usize = 11;
@@ -284,7 +285,7 @@ impl C12Family {
 impl Family for C12Family {
     fn name(&self) -> String {
         format!(
-            "c12:literals(lines<={},quotes={:?},bases=6,terminator-patterns=5,positions={:?},afters=3)x{}cfg",
+            "c12:literals(lines<={},quotes={:?},bases=8,terminator-patterns=5,positions={:?},afters=3)x{}cfg",
             self.max_lines,
             self.quotes,
             self.positions,
